@@ -1062,6 +1062,10 @@ def entry_points(dtype=np.float64, seed=0):
     simple("try_active_set_regular", lambda a, b, x: active_set_nnls(a, b, x), lambda d: (asb(d), asU(d), asx(d)), skel=TA)
     simple("try_entropy", lambda M: vonneumann_entropy(M), lambda d: (d.UtU / np.trace(d.UtU),), skel=("KTryEntropy", [0]))
     simple("try_entropy_nan", lambda M: vonneumann_entropy(M), lambda d: (np.full((3, 3), np.nan, dtype=dtype),), skel=("KTryEntropy", [0]))
+    # round 8: eigh fails on a NON-symmetric matrix with one non-finite entry: the handler's symmetrisation computes values that differ from the
+    # input (an in-place symmetrisation would be visible - on an all-NaN matrix it rewrites identical bytes), then its own eigh raises again and
+    # the exception reaches the caller: a handler that raises (Model.EffectsR8.ycmd, Props C15_ycmd_entry_points_frame)
+    simple("try_entropy_nan_asymmetric", lambda M: vonneumann_entropy(M), lambda d: (np.array([[1, 2, 0.25], [0, 1, 0], [np.nan, 0.5, 1]], dtype=dtype),), skel=("KTryEntropy", [0]))
     simple("try_matricize_scalar_modes", lambda X, rm, cm: matricize(X, rm, cm), lambda d: (d.X, 1, [0, 2]), skel=("KTryModesToList", [0, 1, 2]))
     simple("try_matricize_list_modes", lambda X, rm, cm: matricize(X, rm, cm), lambda d: (d.X, [1], [2, 0]), skel=("KTryModesToList", [0, 1, 2]))
     simple("try_tensordot_scalar_mode_pair", lambda X, Yt, mo: tenalg.tensordot(X, Yt, modes=mo), lambda d: (d.X, d.rs.rand(3, 5, 2).astype(dtype), (1, 0)))
